@@ -38,7 +38,15 @@ impl<const N: usize, Value> IndexMap<N, Value> {
 
     #[inline(always)]
     pub(crate) unsafe fn delete(&mut self, index: usize) {
-        *self.index.get_unchecked_mut(index) = Self::NULL
+        let position = std::mem::replace(self.index.get_unchecked_mut(index), Self::NULL);
+        if position != Self::NULL {
+            // actually remove the entry so that no stale value remains
+            // in `values`, and re-point the index of the entry moved into its place
+            self.values.swap_remove(position as usize);
+            if let Some((moved, _)) = self.values.get(position as usize) {
+                *self.index.get_unchecked_mut(*moved) = position
+            }
+        }
     }
 
     #[inline(always)]
